@@ -328,3 +328,20 @@ impl Vis {
 fn cow_first_two_chars<'a>(s: &CowStr<'a>) -> (r: (Option<char>, Option<char>))
     ensures r.0 == (if s@.len() >= 1 { Some(s@[0]) } else { None::<char> }), r.1 == (if s@.len() >= 2 { Some(s@[1]) } else { None::<char> }),
 { unimplemented!() }
+
+// ---- deserialize_str (borrowed string targets) ----
+/// `visitor.visit_borrowed_str(b)`: the visitor is handed the text (the same function of the text as for an owned string:
+/// C09 compares the two targets by the text they get)
+#[verifier::external_body]
+fn ty_visit_borrowed_str(v: Vis, b: &str) -> (r: Result<VisVal, Error>)
+    ensures r == vis_str(v, b@),
+{ unimplemented!() }
+/// the owned fallback of deserialize_str (visit_string + the conversion of serde's "expected a borrowed string" message
+/// into CannotBorrowTransformed): if it succeeds the visitor was handed the text
+#[verifier::external_body]
+fn ty_owned_fallback<'a>(v: Vis, cow: CowStr<'a>, location: Location) -> (r: Result<VisVal, Error>)
+    ensures r is Ok ==> r == vis_str(v, cow@),
+{ unimplemented!() }
+/// `if let Cow::Borrowed(b) = cow`: whether the parser could lend the text
+#[verifier::external_body]
+fn cowstr_is_borrowed<'a>(c: &CowStr<'a>) -> (r: bool) ensures r == c.is_borrowed(), { unimplemented!() }
